@@ -45,7 +45,7 @@ CLAIMS = {
          "ends with at most records+1 items; after an error the step-through yields nothing; plus _refuted witnesses that the pre-fix code was "
          "unbounded. Tied to the code by capped drains of all three iterators on generated streams/sections (incl. streams ending inside a "
          "section, sections not adding up or out of bounds).", "DESIGN.md 5 (C07)"),
- "C08": ("Six theorems (Props/C08.v): C08_truncation - for every byte string from which a machine is built and every cut offset k "
+ "C08": ("Five theorems (Props/C08.v): C08_truncation - for every byte string from which a machine is built and every cut offset k "
          "(inside a field, a number, a terminator, anywhere) building from the first k bytes fails or yields exactly the machine of a "
          "whole-chain prefix of the file's sections (proved through the reads of a truncated byte string, the parse of a proper prefix of a "
          "line, numeral prefixes and the irrelevance of trailing empty blocks); the same for whole lines; a hard read failure anywhere refuses "
